@@ -93,4 +93,5 @@ func init() {
 	add("C13", "R13n: every scalar field of the node record stored by the map forest's restore loop is computed from bytes read off the stream.", "")
 	add("C14", "R14l: a subtraction step of AddProof runs on every path or is skipped only on a test of the length of the subtracted list.", "")
 	add("C08", "R08j: a callee that describes one forest (one leaf count, one height) is never handed the leaf count n together with TreeRows(n - k).", "")
+	add("C06", "R06k: a flag under which the map forest's undo writes the leaf index can become true on both sides of the layout test TreeRows(NumLeaves) != TotalRows.", "")
 }
